@@ -248,7 +248,7 @@ func (a *Authority) runCLI(p *process, extra cmd.CommandComponent, args []string
 	app := &cmd.AppComponents{
 		Global:          cmd.Compose(p.km, p.ca, a.decorator()),
 		SignatureRandom: a.Rand,
-		Storage:         a.storage(true),
+		Storage:         &local.StorageClient{}, // only used to read --svsm_* files
 		Endorse:         extra,
 	}
 	root := cmd.MakeApp(context.Background(), app)
@@ -501,4 +501,51 @@ func (a *Authority) Clone() *Authority {
 	kg := *a.Keygen
 	c.Keygen = &kg
 	return &c
+}
+
+// CertObjects returns every stored certificate object (name -> bytes) except the manifest, as
+// the oracle's raw look at the authority's durable store.
+func (a *Authority) CertObjects() map[string][]byte {
+	out := map[string][]byte{}
+	switch a.Cfg.CA {
+	case "gcsca":
+		for _, n := range a.Disk.Names(bucket) {
+			if n == gcsca.ManifestObjectName {
+				continue
+			}
+			b, _ := a.Disk.Get(bucket, n)
+			out[n] = append([]byte(nil), b...)
+		}
+	case "localca":
+		root := filepath.Join(a.Dir, "bucketroot", bucket)
+		filepath.Walk(root, func(p string, info os.FileInfo, err error) error {
+			if err != nil || info.IsDir() {
+				return nil
+			}
+			rel, _ := filepath.Rel(root, p)
+			if rel == gcsca.ManifestObjectName {
+				return nil
+			}
+			b, _ := os.ReadFile(p)
+			out[rel] = b
+			return nil
+		})
+	case "memca":
+		for k, c := range a.MemCA.Certs {
+			out[k] = append([]byte(nil), c.Raw...)
+		}
+	}
+	return out
+}
+
+// RunEndorseCLI runs the `endorse` cobra command in a fresh simulated process over this
+// authority. extra is the application's Endorse component (it installs the version-control seam).
+func (a *Authority) RunEndorseCLI(extra cmd.CommandComponent, args []string) error {
+	a.installHooks()
+	p, err := a.newProcess(true)
+	if err != nil {
+		return err
+	}
+	full := append([]string{"endorse"}, a.caFlags()...)
+	return a.runCLI(p, extra, append(full, args...))
 }
